@@ -35,6 +35,33 @@ let () =
           | "S" ->
             let rsp = nz () in let op = nz () in
             "S " ^ String.concat "," (List.map string_of_z (run_stack_access rsp op (z_of_int 0x5000)))
+          | "A" ->
+            (* the name arrives as UTF-8 bytes in hex; the model works on code points *)
+            let b = Array.of_list (List.map int_of_z (unhex (next ()))) in
+            let n = Array.length b in
+            let cps = ref [] in
+            let i = ref 0 in
+            while !i < n do
+              let c = b.(!i) in
+              let (cp, l) =
+                if c < 0x80 then (c, 1)
+                else if c < 0xe0 then (((c land 0x1f) lsl 6) lor (b.(!i + 1) land 0x3f), 2)
+                else if c < 0xf0 then (((c land 0x0f) lsl 12) lor ((b.(!i + 1) land 0x3f) lsl 6) lor (b.(!i + 2) land 0x3f), 3)
+                else (((c land 0x07) lsl 18) lor ((b.(!i + 1) land 0x3f) lsl 12) lor ((b.(!i + 2) land 0x3f) lsl 6) lor (b.(!i + 3) land 0x3f), 4) in
+              cps := z_of_int cp :: !cps;
+              i := !i + l
+            done;
+            let enc (s : z list) : string =
+              let buf = Buffer.create 16 in
+              List.iter (fun z -> Buffer.add_utf_8_uchar buf (Uchar.of_int (int_of_z z))) s;
+              let t = Buffer.contents buf in
+              if t = "" then "-" else String.concat "" (List.map (fun ch -> Printf.sprintf "%02x" (Char.code ch)) (List.init (String.length t) (String.get t))) in
+            (match run_args (List.rev !cps) with
+             | None -> "P;;"
+             | Some None -> "A -"
+             | Some (Some (cc, args)) ->
+               let names = (if string_of_z cc = "1" then ["74686973"] else []) @ List.map enc args in
+               "A " ^ string_of_z cc ^ " " ^ String.concat "," names)
           | "J" ->
             let rd () = let n = int_of_string (next ()) in
               List.init n (fun _ -> let a = nz () in let b = nz () in (a, b)) in
